@@ -92,14 +92,18 @@ def _parse_filesize_by_evaluation(ctx):
     n = 0
     for unit, mult in oracles.SIZE_UNITS.items():
         for form in (unit, unit.upper(), unit.capitalize()):
-            for num, factor in (("3", 3.0), ("1.5", 1.5), ("0", 0.0)):
+            # fractions with leading, inner and trailing zeroes: every digit of the literal counts at its place
+            for num in ("3", "1.5", "0", "12", "1.05", "1.0625", "0.0625", "2.50", "10.010"):
                 if unit == "b" and "." in num:
+                    continue
+                if form != unit and num not in ("3", "1.5", "1.05"):
                     continue
                 got = run(num + form)
                 n += 1
-                want = int(factor * mult)
-                if got != want:
-                    return n, "`%s%s` denotes %s bytes, documented %d (unit `%s` = x%d)" % (num, form, got, want, unit, mult)
+                from decimal import Decimal
+                wants = {int(float(num) * mult), int(Decimal(num) * mult)}        # scaled as a real number, then cut to whole bytes
+                if got not in wants:
+                    return n, "`%s%s` denotes %s bytes, documented %s (unit `%s` = x%d)" % (num, form, got, sorted(wants), unit, mult)
     for text, want in (("5", 5), ("1024", 1024), ("", None), ("k", None), ("x1k", None), ("1x", None), ("b", None)):
         got = run(text)
         n += 1
@@ -119,8 +123,13 @@ def r1(ctx):
             ctx.violation("unit/value", ctx.where(PARSE_FILESIZE), "a size literal must denote number x unit: %s" % diff)
         if diff is None:
             return
-    except interp.Undecided:
-        pass        # read the ladder structurally instead
+    except interp.Undecided as e:
+        # read the ladder structurally instead - unless the function has gained a route the ladder rule cannot see (a helper
+        # consulted before / beside the ladder, inlined here by the normaliser): then the value it computes is unknown
+        if any(x["k"] == "Block" and x.get("inl") for x in walk_exprs(ctx.anchor_hir(PARSE_FILESIZE))):
+            ctx.obligation(False)
+            ctx.violation("unit/unreadable", ctx.where(PARSE_FILESIZE), "cannot evaluate parse_filesize, which now computes sizes through a helper beside its unit ladder: %s" % e)
+            return
     rows, hir = unit_ladder(ctx)
     got = {r["suffix"]: r for r in rows}
     ctx.floor(len(rows), 10, "unit tests (ends_with ladder) in parse_filesize", PARSE_FILESIZE)
